@@ -1,10 +1,13 @@
 SPECIFICATION GenSpec
 CONSTANTS
   FixNilRecover = TRUE
+  TxDoneIsError = TRUE
   MaxArgs = 2
-  MaxSteps = 3
+  MaxSteps = 4
   MaxEx = 2
   Outs = {"ok", "err", "panic", "pnil", "exit"}
-  Depth = 20
+  Fins = {"none", "commit", "rollback"}
+  CancelOn = TRUE
+  Depth = 40
 INVARIANTS Emit
 CHECK_DEADLOCK FALSE
